@@ -52,6 +52,7 @@ def cmd_run(args):
     t0 = time.time()
     prop = args.property.upper()
     tier = args.tier or os.environ.get("VERIF_TIER", "quick")
+    os.environ["VERIF_TIER_EFFECTIVE"] = tier
     seed = int(os.environ.get("VERIF_SEED", "1"))
     only = set(args.only.split(",")) if args.only else None
     from . import boot
@@ -159,6 +160,8 @@ def cmd_setup(args):
     from . import boot
     boot.boot()
     # warm numba caches for the unchanged tree so quick checks do not pay compilation
+    boot.ensure_package("atheris")
+    print("[vk] atheris available")
     for prop in ("C07", "C05", "C08", "C10", "C11"):
         try:
             mod = _load(prop)
